@@ -27,7 +27,7 @@ NONADAPTIVE = ["LinearFixedRFA", "ExpFixedRFA", "PiecewiseConstantRFA", "CubicSp
 
 
 def plan(tier, seed):
-    n = 3000 if tier == "quick" else 100000
+    n = 8000 if tier == "quick" else 400000
     return [{"kind": "family", "start": p * (n // NSHARDS), "count": n // NSHARDS} for p in range(NSHARDS)]
 
 
